@@ -4,13 +4,17 @@ import PytypeModel.Proofs.PyiUnionD
 namespace PytypeModel.Pytd
 
 theorem parse_list_of_members {g : GCtx} {ip : Bool} {d : Defs} : ∀ (l : List Ty),
-    (∀ a ∈ l, ∃ pre, parseTy d (tyExpr ip a) = .ok pre ∧ postTy g.tps pre = a) →
-    ∃ pres, ParsesTo d (l.map (tyExpr ip)) pres ∧ postTys g.tps pres = l
-  | [], _ => ⟨[], trivial, rfl⟩
+    (∀ a ∈ l, ∃ pre, parseTy d (tyExpr ip a) = .ok pre ∧ postTy g.tps pre = a ∧ HeadOK d pre) →
+    ∃ pres, ParsesTo d (l.map (tyExpr ip)) pres ∧ postTys g.tps pres = l ∧ ∀ p ∈ pres, HeadOK d p
+  | [], _ => ⟨[], trivial, rfl, by simp⟩
   | a :: as, h => by
-    obtain ⟨pre, h1, h2⟩ := h a (by simp)
-    obtain ⟨pres, h3, h4⟩ := parse_list_of_members as (fun b hb => h b (by simp [hb]))
-    exact ⟨pre :: pres, ⟨⟨h1, tyExpr_shape ip a⟩, h3⟩, by simp [postTys, h2, h4]⟩
+    obtain ⟨pre, h1, h2, h5⟩ := h a (by simp)
+    obtain ⟨pres, h3, h4, h6⟩ := parse_list_of_members as (fun b hb => h b (by simp [hb]))
+    exact ⟨pre :: pres, ⟨⟨h1, tyExpr_shape ip a⟩, h3⟩, by simp [postTys, h2, h4], by
+      intro p hp
+      rcases List.mem_cons.1 hp with rfl | hp
+      · exact h5
+      · exact h6 p hp⟩
 
 theorem filter_map' {α β : Type} {f : α → β} {p : β → Bool} {l : List α} :
     (l.map f).filter p = (l.filter (fun a => p (f a))).map f := by
@@ -50,12 +54,29 @@ theorem pyDistinct_none_none (l : List Ty) : pyDistinct (noneTy :: noneTy :: l) 
 theorem length_ge_two_ne_single {l : List Ty} (h : 2 ≤ l.length) (x : Ty) : l ≠ [x] := by
   intro e; subst e; simp at h
 
+/-- `x` for `[x]`, else `UnionType(...)` -/
+def singleOrMk : List Ty → Ty
+  | [y] => y
+  | L => mkUnion L
+
+theorem singleOrUnion_many {r : List Ty} (h : ∀ x, r ≠ [x]) : singleOrUnion r = .union r := by
+  unfold singleOrUnion
+  split
+  · next x => exact absurd rfl (h x)
+  · rfl
+
+theorem singleOrMk_many {r : List Ty} (h : ∀ x, r ≠ [x]) : singleOrMk r = mkUnion r := by
+  unfold singleOrMk
+  split
+  · next x => exact absurd rfl (h x)
+  · rfl
+
 /-- the post-processed parse result of `unionOf l`, for `l` parsing to `L` with `postTys L = L'` -/
 theorem parse_unionOf {g : GCtx} (hg : GOK g) {d : Defs} {needs : List String} (henv : EnvOK g d needs)
-    {l : List PyExpr} {L : List Ty} (hp : ParsesTo d l L) (hne : L ≠ [])
+    {l : List PyExpr} {L : List Ty} (hp : ParsesTo d l L) (hne : L ≠ []) (hH : ∀ p ∈ L, HeadOK d p)
     (hU : (∀ x, l ≠ [x]) → "Union" ∈ needs ∧ "Union" ∈ g.adds) :
     ∃ pre, parseTy d (unionOf l) = .ok pre ∧
-      postTy g.tps pre = (match postTys g.tps L with | [y] => y | L' => mkUnion L') := by
+      postTy g.tps pre = singleOrMk (postTys g.tps L) ∧ HeadOK d pre := by
   cases l with
   | nil => cases L <;> simp [ParsesTo] at hp; exact absurd rfl hne
   | cons e es =>
@@ -65,29 +86,24 @@ theorem parse_unionOf {g : GCtx} (hg : GOK g) {d : Defs} {needs : List String} (
       cases es with
       | nil =>
         cases ps with
-        | nil => exact ⟨p, hp.1.1, by simp [postTys]⟩
+        | nil => exact ⟨p, hp.1.1, by simp [postTys, singleOrMk], hH p (by simp)⟩
         | cons _ _ => simp [ParsesTo] at hp
       | cons e2 es2 =>
         cases ps with
         | nil => simp [ParsesTo] at hp
         | cons p2 ps2 =>
           obtain ⟨hU1, hU2⟩ := hU (by intro x; simp)
-          refine ⟨.generic (.named "typing.Union") (p :: p2 :: ps2), ?_, ?_⟩
+          refine ⟨.generic (.named "typing.Union") (p :: p2 :: ps2), ?_, ?_,
+            headOK_typing_sub (n := "typing.Union") (x := "Union") (by decide) (by decide) (by decide) rfl
+              (by intro m; simp)⟩
           · show parseTy d (.sub (.name "Union") (e :: e2 :: es2)) = _
             exact parse_union_sugar hg henv hU1 hU2 hp (by simp)
-          · rw [postTy_union_sugar hg]
-            simp [postTys]
-
-/-- the join of the literal group -/
-def litJoin (lits : List Ty) : Ty := match lits with | [t] => t | _ => .union lits
+          · rw [postTy_union_sugar hg, singleOrMk_many (by intro x; simp [postTys])]
 
 /-- what parsing `unionOf l` and post-processing yields, in terms of the member list -/
 theorem union_of_parts {non lits : List Ty} (hnu : ∀ a ∈ non, isUnionTy a = false) (hl : allLits lits)
     (hd : pyDistinct (non ++ lits) = true) (hne : non ++ lits ≠ []) :
-    (match non ++ (if lits = [] then [] else [litJoin lits]) with
-      | [y] => y
-      | L' => mkUnion L') =
-    (match non ++ lits with | [x] => x | r => .union r) := by
+    singleOrMk (non ++ (if lits = [] then [] else [litJoin lits])) = singleOrUnion (non ++ lits) := by
   have hdl : pyDistinct lits = true := pyDistinct_append_right hd
   have hallu : ∀ a ∈ non ++ lits, isUnionTy a = false := by
     intro a ha
@@ -103,7 +119,7 @@ theorem union_of_parts {non lits : List Ty} (hnu : ∀ a ∈ non, isUnionTy a = 
       cases ys with
       | nil => rfl
       | cons z zs =>
-        simp only
+        rw [singleOrMk_many (by intro x; simp), singleOrUnion_many (by intro x; simp)]
         exact mkUnion_distinct (by simpa using hallu) (by simpa using hd)
   · rw [if_neg hlits]
     have hfl : flattenUnionMembers [litJoin lits] = lits := flatten_joinLits hl hlits
@@ -121,27 +137,188 @@ theorem union_of_parts {non lits : List Ty} (hnu : ∀ a ∈ non, isUnionTy a = 
         cases lits with
         | nil => exact absurd rfl hlits
         | cons a as => cases ys <;> simp
-      have e1 : (match (y :: ys) ++ [litJoin lits] with | [y] => y | L' => mkUnion L') =
-          mkUnion ((y :: ys) ++ [litJoin lits]) := by
-        split
-        · next x hx => exact absurd hx (hL x)
-        · rfl
-      have e2 : (match (y :: ys) ++ lits with | [x] => x | r => Ty.union r) = .union ((y :: ys) ++ lits) := by
-        split
-        · next x hx => exact absurd hx (hR x)
-        · rfl
-      rw [e1, e2]
+      rw [singleOrMk_many hL, singleOrUnion_many hR]
       unfold mkUnion
       rw [flatten_append, hfl, flatten_no_union hnu, dedupPy_of_distinct hd]
 
 theorem flatten_single_or_union {r : List Ty} (hu : ∀ a ∈ r, isUnionTy a = false) (hne : r ≠ []) :
-    flattenUnionMembers [match r with | [x] => x | r => Ty.union r] = r := by
+    flattenUnionMembers [singleOrUnion r] = r := by
+  unfold singleOrUnion
   cases r with
   | nil => exact absurd rfl hne
   | cons a as =>
     cases as with
     | nil => exact flatten_no_union (l := [a]) hu
     | cons b bs => simp [flattenUnionMembers]
+
+theorem tyName_litJoin {l : List Ty} (h : allLits l) : tyName (litJoin l) = "" := by
+  cases l with
+  | nil => rfl
+  | cons a as =>
+    cases as with
+    | nil => obtain ⟨v, rfl⟩ := h a (by simp); rfl
+    | cons b bs => rfl
+
+theorem isEmpty_singletons (vs : List Lit) : (vs.map (fun v => [litExpr v])).isEmpty = vs.isEmpty := by
+  cases vs <;> rfl
+
+/-- the sugar printed for the parts `non`, `lits`, `None?` parses back to the union of the parts -/
+theorem union_assemble {g : GCtx} (hg : GOK g) {ip : Bool} {d : Defs} {needs : List String}
+    (henv : EnvOK g d needs) (non : List Ty) (vs : List Lit) (hvok : ∀ v ∈ vs, litOK v = true)
+    (pnon : List Ty) (hpn1 : ParsesTo d (non.map (tyExpr ip)) pnon) (hpn2 : postTys g.tps pnon = non)
+    (hpnH : ∀ p ∈ pnon, HeadOK d p)
+    (hnonU : ∀ a ∈ non, isUnionTy a = false) (hasNone : Bool)
+    (hd : pyDistinct (non ++ vs.map Ty.literal ++ (if hasNone then [noneTy] else [])) = true)
+    (hne : non ++ vs.map Ty.literal ++ (if hasNone then [noneTy] else []) ≠ [])
+    (hLit : vs ≠ [] → "Literal" ∈ needs ∧ "Literal" ∈ g.adds)
+    (hB : ∀ x ∈ buildUnionAdds3 (non.map (tyExpr ip)) (vs.map (fun v => [litExpr v])) hasNone,
+      x ∈ needs ∧ x ∈ g.adds) :
+    ∃ pre, parseTy d (buildUnion3 (non.map (tyExpr ip)) (vs.map (fun v => [litExpr v])) hasNone) = .ok pre ∧
+      postTy g.tps pre = singleOrUnion (non ++ vs.map Ty.literal ++ (if hasNone then [noneTy] else [])) ∧
+      HeadOK d pre := by
+  let lits := vs.map Ty.literal
+  have hallLits : allLits lits := fun a ha => by
+    obtain ⟨v, _, rfl⟩ := List.mem_map.1 ha; exact ⟨v, rfl⟩
+  have hdnl : pyDistinct (non ++ lits) = true := pyDistinct_append_left hd
+  have hdl : pyDistinct lits = true := pyDistinct_append_right hdnl
+  have hlits_nil : lits = [] ↔ vs = [] := by cases vs <;> simp [lits]
+  -- the printed member list and what it parses to
+  let l : List PyExpr := non.map (tyExpr ip) ++
+    (if vs = [] then [] else [PyExpr.sub (.name "Literal") (vs.map litExpr)])
+  let L : List Ty := pnon ++ (if vs = [] then [] else [joinTypes lits])
+  have hl : non.map (tyExpr ip) ++ (if (vs.map (fun v => [litExpr v])).isEmpty then []
+      else [PyExpr.sub (.name "Literal") (vs.map (fun v => [litExpr v])).flatten]) = l := by
+    rw [isEmpty_singletons, flatten_singletons]
+    cases vs <;> rfl
+  have hpL : ParsesTo d l L := by
+    apply ParsesTo.append hpn1
+    by_cases hv : vs = []
+    · simp [hv, ParsesTo]
+    · simp only [hv, if_false]
+      obtain ⟨h1, h2⟩ := hLit hv
+      exact ⟨⟨parse_literal_sugar hg henv h1 h2 vs hvok, rfl⟩, trivial⟩
+  have hpostL : postTys g.tps L = non ++ (if lits = [] then [] else [litJoin lits]) := by
+    simp only [L, postTys_eq_map, List.map_append]
+    rw [← postTys_eq_map, hpn2]
+    by_cases hv : vs = []
+    · simp [hv, lits]
+    · have hln : lits ≠ [] := fun e => hv (hlits_nil.1 e)
+      simp only [hv, hln, if_false, List.map_cons, List.map_nil]
+      rw [joinTypes_lits hallLits hdl hln, postTy_joinLits g.tps hallLits hdl]
+  have hlen : l.length = L.length := hpL.length
+  -- requests
+  have hBU : (∀ x, l ≠ [x]) → l ≠ [] → "Union" ∈ needs ∧ "Union" ∈ g.adds := by
+    intro h1 h2
+    apply hB
+    unfold buildUnionAdds3
+    rw [hl]
+    apply List.mem_append_right
+    generalize l = l' at h1 h2
+    cases l' with
+    | nil => exact absurd rfl h2
+    | cons a as =>
+      cases as with
+      | nil => exact absurd rfl (h1 a)
+      | cons b bs => simp
+  have hBO : hasNone = true → l ≠ [] → "Optional" ∈ needs ∧ "Optional" ∈ g.adds := by
+    intro h1 h2
+    apply hB
+    unfold buildUnionAdds3
+    rw [hl]
+    apply List.mem_append_left
+    have : ¬ l.isEmpty = true := by
+      intro h; exact h2 (List.isEmpty_iff.1 h)
+    simp [h1, this]
+  have hprinted : buildUnion3 (non.map (tyExpr ip)) (vs.map (fun v => [litExpr v])) hasNone =
+      (if hasNone then (if l.isEmpty then PyExpr.none else .sub (.name "Optional") [unionOf l]) else unionOf l) := by
+    unfold buildUnion3
+    rw [hl]
+  rw [hprinted]
+  by_cases hr : non ++ lits = []
+  · -- only `None`
+    have hnon : non = [] := (List.append_eq_nil_iff.1 hr).1
+    have hlits : lits = [] := (List.append_eq_nil_iff.1 hr).2
+    have hvs : vs = [] := hlits_nil.1 hlits
+    subst hnon hvs
+    cases hasNone with
+    | false => simp at hne
+    | true =>
+      refine ⟨.named "NoneType", ?_, ?_, ?_⟩
+      · simp [l, parseTy]
+      · rw [postTy_named, hg.tpsNone]
+        simp [noneTy, singleOrUnion]
+        decide
+      · exact headOK_single henv (x := "NoneType") (by decide) hg.noneAlias (by decide) (by decide) rfl
+  · have hLne : L ≠ [] := by
+      intro e
+      apply hr
+      have : (postTys g.tps L).length = 0 := by rw [e]; rfl
+      rw [hpostL] at this
+      have hnon : non = [] := by
+        cases non with
+        | nil => rfl
+        | cons a as => simp at this
+      subst hnon
+      by_cases hl0 : lits = []
+      · simp [hl0]
+      · simp [hl0] at this
+    have hlne : l ≠ [] := by
+      intro e; rw [e] at hlen; exact hLne (List.eq_nil_of_length_eq_zero hlen.symm)
+    have hallu : ∀ a ∈ non ++ lits, isUnionTy a = false := by
+      intro a ha
+      rcases List.mem_append.1 ha with h | h
+      · exact hnonU a h
+      · exact allLits_no_union hallLits a h
+    have hLH : ∀ p ∈ L, HeadOK d p := by
+      intro p hp
+      rcases List.mem_append.1 hp with h | h
+      · exact hpnH p h
+      · split at h
+        · simp at h
+        · simp at h
+          subst h
+          apply headOK_empty
+          have hv : vs ≠ [] := by assumption
+          have hln : lits ≠ [] := fun e => hv (hlits_nil.1 e)
+          rw [joinTypes_lits hallLits hdl hln]
+          exact tyName_litJoin hallLits
+    obtain ⟨preU, hpU1, hpU2, hpU3⟩ := parse_unionOf hg henv hpL hLne hLH (fun h => hBU h hlne)
+    rw [hpostL, union_of_parts hnonU hallLits hdnl hr] at hpU2
+    cases hasNone with
+    | false =>
+      refine ⟨preU, by simpa using hpU1, ?_, hpU3⟩
+      rw [hpU2]
+      simp only [Bool.false_eq_true, if_false, List.append_nil]
+      rfl
+    | true =>
+      obtain ⟨hO1, hO2⟩ := hBO rfl hlne
+      have hle : l.isEmpty = false := by
+        cases hc : l with
+        | nil => exact absurd hc hlne
+        | cons _ _ => rfl
+      refine ⟨.generic (.named "typing.Optional") [preU], ?_, ?_,
+        headOK_typing_sub (n := "typing.Optional") (x := "Optional") (by decide) (by decide) (by decide) rfl
+          (by intro m; simp)⟩
+      · simp only [if_true, hle, Bool.false_eq_true, if_false]
+        exact parse_optional_sugar hg henv hO1 hO2 hpU1 (unionOf_shape l (by
+          intro e he
+          rcases List.mem_append.1 he with h | h
+          · obtain ⟨a, _, rfl⟩ := List.mem_map.1 h; exact tyExpr_shape ip a
+          · split at h
+            · simp at h
+            · simp at h; subst h; rfl))
+      · rw [postTy_optional_sugar hg, hpU2]
+        simp only [if_true] at hd ⊢
+        unfold mkUnion
+        rw [flatten_append, flatten_single_or_union hallu hr,
+          flatten_no_union (l := [noneTy]) (by intro a ha; simp at ha; subst ha; rfl),
+          dedupPy_of_distinct hd]
+        rw [singleOrUnion_many]
+        intro x hx
+        have h1 := congrArg List.length hx
+        have h2 : 0 < (non ++ lits).length := List.length_pos_iff.2 hr
+        simp only [List.length_append, List.length_cons, List.length_nil, lits, List.length_map] at h1 h2
+        omega
 
 theorem good_union_parse {g : GCtx} (hg : GOK g) {ip : Bool} {ts : List Ty} (ih : ListGood g ip ts)
     (hf : fTys g ip ts = true) (hu : ts.any isUnionTy = false)
@@ -150,7 +327,7 @@ theorem good_union_parse {g : GCtx} (hg : GOK g) {ip : Bool} {ts : List Ty} (ih 
     (hsub : ∀ x ∈ tyAdds ip (.union ts), x ∈ g.adds) (d : Defs)
     (henv : EnvOK g d (tyAdds ip (.union ts))) :
     ∃ pre, parseTy d (tyExpr ip (.union ts)) = .ok pre ∧
-      postTy g.tps pre = normTy g.tps ip (.union ts) := by
+      postTy g.tps pre = normTy g.tps ip (.union ts) ∧ HeadOK d pre := by
   have hms : normTys g.tps ip ts = ts.map (normTy g.tps ip) := normTys_eq_map _ _ _
   have hE : tyExprs ip (normTys g.tps ip ts) = tyExprs ip ts := listGood_exprs ih
   have hadds := tyAdds_union ip ts
@@ -170,12 +347,12 @@ theorem good_union_parse {g : GCtx} (hg : GOK g) {ip : Bool} {ts : List Ty} (ih 
     obtain ⟨t, ht, rfl⟩ := List.mem_map.1 this
     exact ⟨t, ht, rfl⟩
   have hparse : ∀ a ∈ formSetK (tyExpr ip) ip (normTys g.tps ip ts),
-      ∃ pre, parseTy d ((tyExpr ip) a) = .ok pre ∧ postTy g.tps pre = a := by
+      ∃ pre, parseTy d ((tyExpr ip) a) = .ok pre ∧ postTy g.tps pre = a ∧ HeadOK d pre := by
     intro a ha
     obtain ⟨t, ht, rfl⟩ := hF a ha
-    obtain ⟨pre, h1, h2⟩ := (ih t ht).2.2 d (henv.mono (by
+    obtain ⟨pre, h1, h2, h3⟩ := (ih t ht).2.2 d (henv.mono (by
       intro x hx; rw [hadds]; exact List.mem_append_left _ (mem_tysAdds.2 ⟨t, ht, hx⟩)))
-    exact ⟨pre, by show parseTy d (tyExpr ip (normTy g.tps ip t)) = _; rw [(ih t ht).1]; exact h1, h2⟩
+    exact ⟨pre, by show parseTy d (tyExpr ip (normTy g.tps ip t)) = _; rw [(ih t ht).1]; exact h1, h2, h3⟩
   -- the three parts
   generalize hFdef : formSetK (tyExpr ip) ip (normTys g.tps ip ts) = F at hFe hF hparse
   have hres : unionRes ip (normTys g.tps ip ts) =
@@ -207,7 +384,7 @@ theorem good_union_parse {g : GCtx} (hg : GOK g) {ip : Bool} {ts : List Ty} (ih 
   have hnone : ∀ a ∈ nones, a = noneTy := by
     intro a ha
     obtain ⟨haF, hn⟩ := hnnF a ha
-    obtain ⟨pre, h1, h2⟩ := hparse a haF
+    obtain ⟨pre, h1, h2, _⟩ := hparse a haF
     have he : (tyExpr ip) a = .none := by unfold pNone at hn; simpa using hn
     rw [he] at h1
     simp [parseTy] at h1
@@ -282,7 +459,7 @@ theorem good_union_parse {g : GCtx} (hg : GOK g) {ip : Bool} {ts : List Ty} (ih 
         obtain ⟨haF, hn⟩ := hnnF a ha
         exact ⟨a, haF, by unfold pNone at hn; simpa using hn⟩
   -- parse the non-literal members and the literal group
-  obtain ⟨pnon, hpn1, hpn2⟩ := parse_list_of_members (g := g) (ip := ip) (d := d) non
+  obtain ⟨pnon, hpn1, hpn2, hpnH⟩ := parse_list_of_members (g := g) (ip := ip) (d := d) non
     (fun a ha => hparse a (hnonF a ha))
   have hallLits : allLits lits := fun a ha => by
     obtain ⟨v, hv, _⟩ := hlitv a ha; exact ⟨v, hv⟩
@@ -292,6 +469,24 @@ theorem good_union_parse {g : GCtx} (hg : GOK g) {ip : Bool} {ts : List Ty} (ih 
     intro a ha
     obtain ⟨t, ht, rfl⟩ := hF a (hnonF a ha)
     exact normTy_not_union _ _ (hut t ht)
-  sorry
+  rw [hprint, normTy_union]
+  unfold normUnion
+  rw [hres, hvs]
+  rw [hvs] at hd hne
+  have hLitBoth : vs ≠ [] → "Literal" ∈ tyAdds ip (.union ts) ∧ "Literal" ∈ g.adds :=
+    fun hv => ⟨hLit hv, hsub _ (hLit hv)⟩
+  have hBboth : ∀ x ∈ buildUnionAdds3 (non.map (tyExpr ip)) (vs.map (fun v => [litExpr v])) (!nones.isEmpty),
+      x ∈ tyAdds ip (.union ts) ∧ x ∈ g.adds := by
+    intro x hx
+    have : x ∈ tyAdds ip (.union ts) := by
+      rw [hadds, hbadds]; exact List.mem_append_right _ hx
+    exact ⟨this, hsub x this⟩
+  rcases hnones with h | h
+  · subst h
+    exact union_assemble hg henv non vs hvok pnon hpn1 hpn2 hpnH hnonU false (by simpa using hd)
+      (by simpa using hne) hLitBoth hBboth
+  · subst h
+    exact union_assemble hg henv non vs hvok pnon hpn1 hpn2 hpnH hnonU true (by simpa using hd)
+      (by simpa using hne) hLitBoth hBboth
 
 end PytypeModel.Pytd
